@@ -30,6 +30,9 @@ func TestMain(m *testing.M) {
 	// "disk full" windows are made with RLIMIT_FSIZE; the write must fail
 	// with EFBIG rather than kill the process
 	signal.Ignore(syscall.SIGXFSZ)
+	// the usual umask of a service account, whatever the check was started
+	// under: a file created without an explicit owner-only mode shows
+	syscall.Umask(0o022)
 	os.Exit(m.Run())
 }
 
@@ -210,6 +213,7 @@ func TestWorker(t *testing.T) {
 	}
 
 	printStart := os.Getenv("VERIF_PRINT_START") != ""
+	curFile := os.Getenv("VERIF_CUR_FILE")
 	if os.Getenv("VERIF_DUMP_DIR") != "" {
 		dumpLog = true
 	}
@@ -243,6 +247,11 @@ func TestWorker(t *testing.T) {
 		runStart := time.Now()
 		if printStart {
 			fmt.Printf("START %s %d\n", c.Engine, seed)
+		}
+		if curFile != "" {
+			// which run a process-killing panic (one raised on a goroutine of
+			// the code under test) belongs to
+			os.WriteFile(curFile, []byte(fmt.Sprintf("%s %d", c.Engine, seed)), 0o644)
 		}
 		for _, x := range c.Real {
 			realSet[x] = true
